@@ -12,6 +12,31 @@ FORBIDDEN = re.compile(r"\b(sorry|admit|native_decide|bv_decide|implemented_by|u
 PY = "/venv/bin/python"
 
 
+class OpTimeout(Exception):
+    """an operation of the implementation did not return within its time limit"""
+
+
+class time_limit:
+    """with time_limit(5): ...  raises OpTimeout (main thread only)"""
+
+    def __init__(self, seconds):
+        self.seconds = seconds
+
+    def _raise(self, signum, frame):
+        raise OpTimeout("no result within %d s" % self.seconds)
+
+    def __enter__(self):
+        import signal
+        self.old = signal.signal(signal.SIGALRM, self._raise)
+        signal.alarm(self.seconds)
+
+    def __exit__(self, *a):
+        import signal
+        signal.alarm(0)
+        signal.signal(signal.SIGALRM, self.old)
+        return False
+
+
 class Infra(Exception):
     """infrastructure failure: exit 2, never a violation"""
 
